@@ -412,7 +412,7 @@ def unit_canary():
     return Unit('canary/symmetric-with-edge-repeat', run, kind='canary', expect='refuted')
 
 
-def unit_resize_discr(bl, br, off_kind, grow):
+def unit_resize_discr(bl, br, off_kind, grow, second_axis=False):
     """_resize_discr (1 axis, symbolic size / offset / grid): the range partition handed to uniform_partition keeps the cell size of the
     domain and its grid points are those of the domain shifted by whole cells (num_left cells to the left), for every nodes_on_bdry pair"""
     DOPS = 'odl.discr.discr_ops:'
@@ -436,14 +436,22 @@ def unit_resize_discr(bl, br, off_kind, grow):
                 off = S(z3.Int('off'))
                 st.assume(off >= 0)          # entries added to (grow) / removed from (shrink) the left
                 st.assume(off <= (m - n if grow else n - m))
+            # optional second axis whose size does NOT change (an explicit offset may still be given for it, e.g. a scalar offset for all axes)
+            n1, g1, h1 = S(z3.Int('n1')), S(z3.Real('g1')), S(z3.Real('h1'))
+            st.assume(n1 >= 2)
+            st.assume(h1 > 0)
+            off1 = None
+            if second_axis and off_kind == 'given':
+                off1 = S(z3.Int('off1'))
+                st.assume(off1 >= 0)
             calls = []
 
             class Grid(object):
                 def pv_getattr(self, I_, fr_, name):
                     if name == 'min':
-                        return ip.Builtin('min', lambda *a: ONd(np.array([g0], dtype=object)))
+                        return ip.Builtin('min', lambda *a: ONd(np.array([g0, g1][:2 if second_axis else 1], dtype=object)))
                     if name == 'max':
-                        return ip.Builtin('max', lambda *a: ONd(np.array([g0 + (n - 1) * h], dtype=object)))
+                        return ip.Builtin('max', lambda *a: ONd(np.array([g0 + (n - 1) * h, g1 + (n1 - 1) * h1][:2 if second_axis else 1], dtype=object)))
                     raise Unsupported('grid.%s' % name)
 
             class Part(object):
@@ -459,6 +467,8 @@ def unit_resize_discr(bl, br, off_kind, grow):
                 def pv_getattr(self, I_, fr_, name):
                     d = {'ndim': 1, 'dtype': npm.DT('float64'), 'impl': 'numpy', 'exponent': 2.0, 'weighting': None, 'shape': (n,), 'is_uniform_byaxis': (True,),
                          'grid': Grid(), 'cell_sides': ONd(np.array([h], dtype=object))}
+                    if second_axis:
+                        d.update({'ndim': 2, 'shape': (n, n1), 'is_uniform_byaxis': (True, True), 'cell_sides': ONd(np.array([h, h1], dtype=object))})
                     if name in d:
                         return d[name]
                     raise Unsupported('discr.%s' % name)
@@ -476,18 +486,28 @@ def unit_resize_discr(bl, br, off_kind, grow):
             st.cuts['odl.discr.discr_space:DiscretizedSpace.__init__'] = lambda I_, fr_, self, part, tspace, **k: self.fields.update({'part': part, 'tspace': tspace})
             from contracts import oplib
             try:
-                res = I.call(I.get_func(DOPS + '_resize_discr'), [Discr(), (m,), (off,), {'nodes_on_bdry': [(bl, br)]}], {}, fr)
+                if second_axis:
+                    res = I.call(I.get_func(DOPS + '_resize_discr'), [Discr(), (m, n1), (off, off1), {'nodes_on_bdry': [(bl, br), (br, bl)]}], {}, fr)
+                else:
+                    res = I.call(I.get_func(DOPS + '_resize_discr'), [Discr(), (m,), (off,), {'nodes_on_bdry': [(bl, br)]}], {}, fr)
             except ip.PyRaise as e:
                 return ('raise', e.exc)
-            return ('ok', dict(calls=calls, n=n, m=m, g0=g0, h=h, off=off, res=res))
+            return ('ok', dict(calls=calls, n=n, m=m, g0=g0, h=h, off=off, res=res, n1=n1, g1=g1, h1=h1))
         info = {'nodes_on_bdry': (bl, br), 'offset': off_kind, 'grow': grow}
         for st, (status, r) in ctx.explore(path):
             if status == 'raise':
                 ctx.fail(st, 'no_raise', 'raises %s' % lib.exc_desc(r), info)
                 continue
-            ctx.prove(st, 'one uniform partition is built for the axis', len(r['calls']) == 1, info)
-            if len(r['calls']) != 1:
+            ctx.prove(st, 'one uniform partition is built per axis', len(r['calls']) == (2 if second_axis else 1), info)
+            if len(r['calls']) != (2 if second_axis else 1):
                 continue
+            if second_axis:
+                c1 = r['calls'][1]
+                n1, g1, h1 = r['n1'], r['g1'], r['h1']
+                mn1, mx1 = core.S.lift(c1['min_pt']), core.S.lift(c1['max_pt'])
+                d1 = n1 - (0.5 if br else 0.0) - (0.5 if bl else 0.0)
+                ctx.prove(st, 'axis of unchanged size: same number of cells, same cell size, same grid points (whatever offset was given for it)',
+                          core.s_and(core.sbool(core.sc_eq(core.S.lift(c1['shape']), n1)), core.sbool(core.sc_eq(mx1 - mn1, h1 * d1)), core.sbool(core.sc_eq(mn1 + (0.0 if br else 0.5) * h1, g1))), info)
             c = r['calls'][0]
             n, m, g0, h = r['n'], r['m'], r['g0'], r['h']
             mn, mx = core.S.lift(c['min_pt']), core.S.lift(c['max_pt'])
@@ -501,8 +521,8 @@ def unit_resize_discr(bl, br, off_kind, grow):
             num_l = (r['off'] if grow else -r['off']) if r['off'] is not None else n_diff - n_diff // 2      # cells added on the left (negative: removed)
             first = mn + (0.0 if bl else 0.5) * h
             ctx.prove(st, 'grid points are the old ones shifted by whole cells  (first new node == g0 - num_left * h)', core.sc_eq(first, g0 - num_l * h), info)
-    return Unit('resize_discr/bdry=%s%s/offset=%s/%s' % (int(bl), int(br), off_kind, 'grow' if grow else 'shrink'), run, funcs=['odl.discr.discr_ops:_resize_discr'],
-                config={'nodes_on_bdry': [bl, br], 'offset': off_kind, 'grow': grow})
+    return Unit('resize_discr/bdry=%s%s/offset=%s/%s%s' % (int(bl), int(br), off_kind, 'grow' if grow else 'shrink', '/with-unchanged-axis' if second_axis else ''), run, funcs=['odl.discr.discr_ops:_resize_discr'],
+                config={'nodes_on_bdry': [bl, br], 'offset': off_kind, 'grow': grow, 'second_axis': second_axis})
 
 
 def unit_resizing_init(bl, br, off_kind, grow, hval=0.5):
@@ -635,6 +655,7 @@ def units(tier, seed):
         for ok in ('none', 'given'):
             for grow in (True, False):
                 us.append(unit_resize_discr(bl, br, ok, grow))
+                us.append(unit_resize_discr(bl, br, ok, grow, second_axis=True))
                 for hv in (0.5, 3.0):
                     us.append(unit_resizing_init(bl, br, ok, grow, hv))
     for mode in MODES:
@@ -673,6 +694,19 @@ def replay_discr(ob):
     bl, br = cfg.get('nodes_on_bdry', [False, False])
     grow, given = cfg.get('grow'), cfg.get('offset') == 'given'
     try:
+        if cfg.get('second_axis'):
+            # axis 0 resized, axis 1 of unchanged size with an explicit offset given for it as well
+            for n in (4, 5):
+                for m in ((n + 2,) if grow else (n - 2,)):
+                    for off in ((0, 1, 2) if given else (None,)):
+                        X = odl.uniform_discr([0.5, -1.0], [0.5 + n, 2.0], (n, 3), nodes_on_bdry=[(bl, br), (br, bl)])
+                        for off1 in ((0, 1, 2) if given else (None,)):
+                            op = odl.ResizingOperator(X, ran_shp=(m, 3), offset=None if off is None else (off, off1), discr_kwargs={'nodes_on_bdry': [(bl, br), (br, bl)]})
+                            ga, gb = X.grid.coord_vectors[1], op.range.grid.coord_vectors[1]
+                            if not np.allclose(ga, gb) or not np.allclose(op.range.cell_sides, X.cell_sides):
+                                return {'reproduced': True, 'detail': 'shape (%d, 3) -> (%d, 3), offset %r, nodes_on_bdry %r: the axis of unchanged size has grid points %r in the range, %r in the domain'
+                                        % (n, m, (off, off1), (bl, br), gb, ga)}
+            return {'reproduced': False, 'detail': 'axes of unchanged size keep their grid natively'}
         for n in (4, 5, 6):
             for m in ((n + 1, n + 3) if grow else (n - 1, n - 2)):
                 for off in ((range(0, abs(m - n) + 1)) if given else (None,)):
